@@ -128,6 +128,8 @@ def shrink(run, text, data, budget=25):
 def oracle(run, deep):
     """Metamorphic checks on the implementation alone."""
     mutated_documents(run)
+    attribution_is_mapped_access(run)
+    keyword_lambda_equivalence(run)
     g = ec.Gen(run.rng, tick_p=0.0, hist={})
     n = run.n(300, 4000) * (3 if deep else 1)
     for _ in range(n):
@@ -182,6 +184,138 @@ def mutated_documents(run):
                 edits[step](doc)
 
 
+def _outcome(eng, text, data, ctx):
+    import yaql
+    try:
+        return ("ok", repr(eng(text).evaluate(data=data, context=ctx)))
+    except Exception as e:
+        return ("err", type(e).__name__)
+
+
+def attribution_is_mapped_access(run):
+    """`collection.name` is member access mapped over the elements: in every context it gives what
+    `collection.select($.name)` gives - with the '.' that is in effect THERE (legacy null-for-missing, a host's own
+    `#operator_.` overload for dictionaries, a yaqlized host object among the elements)."""
+    import yaql
+    import yaql.legacy
+    from yaql import yaqlization
+    from yaql.language import specs, utils, yaqltypes
+
+    @specs.parameter("d", utils.MappingType, alias="dict")
+    @specs.parameter("key", yaqltypes.Keyword())
+    @specs.name("#operator_.")
+    def lenient(d, key):
+        v = d.get(key)
+        return "?" if v is None else v
+
+    def host():
+        c = yaql.create_context().create_child_context()
+        c.register_function(lenient)
+        return c
+
+    class Obj(object):
+        def __init__(self, **kw):
+            self.__dict__.update(kw)
+    rng = run.rng
+    std, leg = yaql.YaqlFactory().create(), yaql.legacy.YaqlFactory().create()
+    settings = [("standard", std, yaql.create_context), ("legacy", leg, yaql.legacy.create_context), ("host-dot", std, host),
+                ("standard-raw", yaql.YaqlFactory().create({"yaql.convertInputData": False}), yaql.create_context)]
+    keys = ["name", "nick", "tags", "t", "u"]
+    for round_ in range(run.n(40, 400)):
+        people = []
+        for _ in range(rng.randrange(0, 4)):
+            d = {}
+            for k in keys[:3]:
+                if rng.random() < 0.7:
+                    d[k] = rng.choice([None, "a", 1, [{"t": 1}, {"t": 2, "u": 5}], [{"t": 3}], [], {"t": 9}])
+            people.append(d)
+        if rng.random() < 0.25:
+            people.append(yaqlization.yaqlize(Obj(name="o", nick=None)))
+        doc = {"people": people}
+        for label, eng, mk in settings:
+            for k in ("name", "nick", "tags"):
+                pairs = [("$.people.%s" % k, "$.people.select($.%s)" % k),
+                         ("let(p => $.people) -> $p.where($.name != a).%s" % k, "let(p => $.people) -> $p.where($.name != a).select($.%s)" % k)]
+                if k == "tags":
+                    pairs.append(("$.people.tags.t", "$.people.select($.tags.select($.t))"))
+                for mapped, elementwise in pairs:
+                    a, b = _outcome(eng, mapped, doc, mk()), _outcome(eng, elementwise, doc, mk())
+                    run.case(("attr", label, mapped, repr(doc)), nontrivial=len(people) >= 2)
+                    run.count("attribution:" + label)
+                    run.count("attribution_outcome:" + a[0])
+                    if mapped == "$.people.tags.t" and a[0] == b[0] == "err":
+                        continue        # null.t and null.select(..) are different errors; only the error status is comparable
+                    if a != b:
+                        run.fail("violation", "`collection.name` is not the context's member access mapped over the elements "
+                                              "(differs from collection.select($.name))",
+                                 {"context": label, "program": mapped, "variant": elementwise, "data": repr(doc)[:600],
+                                  "observed": repr(a), "original": repr(b)})
+                        return
+
+
+LAMBDA_BODIES = ["$", "$ * 10", "$ > 1", "[$, $]", "$ + $k", "sq($)", "[$1, $2]", "$1 > $2", "$[0]", "$.len()"]
+RECEIVERS = ["[1, 2, 3]", "[[1, a], [1, b], [2, c]]", "[[3, 4], [1]]", "{a => 1, b => 2}", "[3, 1, 2].select($ + 1)"]
+PLAIN_ARGS = ["1", "[2, 5]", "{b => 3}", "true"]
+
+
+def keyword_lambda_equivalence(run):
+    """A lambda argument is the same lambda whether it is passed positionally or as `name => lambda` (in its scope `$`
+    is its own argument, named variables and def'd functions come from the enclosing chain): for every stdlib method
+    with lambda parameters, both spellings agree - result or error class - under both naming conventions."""
+    import yaql
+    from yaql.language import conventions, specs, yaqltypes
+    rng = run.rng
+    n = agree_ok = 0
+    for conv_name, conv in (("camel", None), ("python", conventions.PythonConvention())):
+        ctx = yaql.create_context(convention=conv) if conv else yaql.create_context()
+        eng = ec.engine()
+        seen, c = set(), ctx
+        while c is not None:
+            for name, fds in sorted(getattr(c, "_functions", {}).items()):
+                for fd in fds:
+                    if id(fd) in seen or not fd.is_method or not name[0].isalpha():
+                        continue
+                    seen.add(id(fd))
+                    params = sorted([q for k, q in fd.parameters.items() if q.position is not None and k not in ("*", "**")
+                                     and not isinstance(q.value_type, yaqltypes.HiddenParameterType)], key=lambda q: q.position)
+                    if len(params) < 2 or not any(isinstance(q.value_type, yaqltypes.Lambda) for q in params[1:]):
+                        continue
+                    for _ in range(run.n(6, 30)):
+                        recv = rng.choice(RECEIVERS)
+                        vals = [rng.choice(LAMBDA_BODIES) if isinstance(q.value_type, yaqltypes.Lambda) else rng.choice(PLAIN_ARGS)
+                                for q in params[1:]]
+                        # drop a random suffix of optional parameters
+                        keep = len(vals)
+                        while keep > 1 and params[keep].default is not specs.NO_DEFAULT and rng.random() < 0.4:
+                            keep -= 1
+                        vals = vals[:keep]
+                        meth = conv.convert_function_name(name) if conv else name
+                        pname = lambda q: (conv.convert_parameter_name(q.alias or q.name) if conv else (q.alias or q.name))
+                        prefix = "let(k => 100) -> def(sq, $ * $) -> "
+                        positional = "%s%s.%s(%s)" % (prefix, recv, meth, ", ".join(vals))
+                        base = _outcome(eng, positional, 7, ctx)
+                        for j in range(len(vals)):
+                            if not any(isinstance(q.value_type, yaqltypes.Lambda) for q in params[1 + j:1 + keep]):
+                                continue
+                            kw = "%s%s.%s(%s)" % (prefix, recv, meth, ", ".join(
+                                vals[:j] + ["%s => %s" % (pname(q), v) for q, v in zip(params[1 + j:], vals[j:])]))
+                            got = _outcome(eng, kw, 7, ctx)
+                            n += 1
+                            agree_ok += got[0] == "ok"
+                            run.case(("kwlambda", kw), nontrivial=base[0] == "ok")
+                            run.count("keyword_lambda:" + conv_name)
+                            if got != base:
+                                run.fail("violation", "a lambda passed by keyword evaluates differently from the same lambda passed "
+                                                      "positionally (`$` / names inside it are not bound as for the positional lambda)",
+                                         {"convention": conv_name, "program": positional, "variant": kw, "data": 7,
+                                          "observed": repr(got), "original": repr(base)})
+                                return
+            c = c.parent
+    run.note("keyword-lambda equivalence: %d calls, %d succeeded in both spellings" % (n, agree_ok))
+    if n and agree_ok * 10 < n:
+        run.note("WARNING: fewer than 10% of keyword-lambda calls succeed")
+
+
 def load_corpus(pid):
     import json
     import os
@@ -191,8 +325,25 @@ def load_corpus(pid):
     return [(c["program"], c["data"]) for c in json.load(open(path))]
 
 
+class _Probe:
+    def __init__(self, rng):
+        self.failed, self.rng, self.cov = False, rng, {}
+
+    def case(self, *a, **k): pass
+    def count(self, *a, **k): pass
+    def note(self, *a, **k): pass
+    def n(self, q, t): return q
+
+    def fail(self, *a, **k):
+        self.failed = True
+
+
 def replay(run, data):
     d = data.get("data", {})
+    if "context" in d or "convention" in d:
+        probe = _Probe(run.rng)
+        (attribution_is_mapped_access if "context" in d else keyword_lambda_equivalence)(probe)
+        return not probe.failed
     if "variant" in d:
         return repr(ec.run_real(d["variant"], d["data"])[1]) == repr(ec.run_real(d["program"], d["data"])[1])
     return not differs(run, d["program"], d["data"])
